@@ -368,7 +368,7 @@ package dsl
 //@ func ToUnionOfUnderlyingTypes
 //@   property C03,C04,C02
 //@   requires t != nil
-//@   invariant 0: forall k in 0..len(t.Cases) :: (t.Cases[k] == old(t.Cases[k]) && (t.Cases[k] != nil ==> t.Cases[k].Type == old(t.Cases[k].Type)))
+//@   invariant 0: forall k in 0..len(t.Cases) :: (t.Cases[k] == old(t.Cases[k]) && !fresh(t.Cases[k]) && (t.Cases[k] != nil ==> t.Cases[k].Type == old(t.Cases[k].Type)))
 //@   ensures the_cases_of_the_model_are_left_alone: forall k in 0..len(t.Cases) :: (t.Cases[k] == old(t.Cases[k]) && (t.Cases[k] != nil ==> t.Cases[k].Type == old(t.Cases[k].Type)))
 //@   ensures the_result_is_a_new_object: result != nil && fresh(result)
 //@ func GetPrimitiveType
